@@ -75,6 +75,16 @@ Theorem C01_null_moves : forall g ls ts,
 Proof. exact null_moves. Qed.
 Print Assumptions C01_null_moves.
 
+(* unwind (any path, nested ones included): as many rows as the list under the path has items (one row otherwise), each
+   keeping the marks of the traveler and the identity of the element *)
+Theorem C01_unwind_shape : forall f t c, t_cur t = Some c ->
+  List.length (unwind_of f t) = match look t f with Some (JList (x :: r)) => S (List.length r) | _ => 1 end /\
+  Forall (fun t' => t_marks t' = t_marks t /\
+                    exists c', t_cur t' = Some c' /\ e_gid c' = e_gid c /\ e_label c' = e_label c /\ e_from c' = e_from c /\ e_to c' = e_to c)
+         (unwind_of f t).
+Proof. exact unwind_shape. Qed.
+Print Assumptions C01_unwind_shape.
+
 Theorem C01_order_free : forall g p ts a b, forallb order_free p = true -> Permutation a b ->
   match run_from g ts p a, run_from g ts p b with
   | Some (t1, o1), Some (t2, o2) => t1 = t2 /\ Permutation o1 o2
